@@ -329,6 +329,13 @@ class Norm(ast.NodeTransformer):
 
     def visit_comprehension(self, node):
         self.generic_visit(node)
+        # only the truth value of a condition is observable: `if not not c` is `if c`
+        def strip2(c):
+            while (isinstance(c, ast.UnaryOp) and isinstance(c.op, ast.Not) and isinstance(c.operand, ast.UnaryOp)
+                   and isinstance(c.operand.op, ast.Not)):
+                c = c.operand.operand
+            return c
+        node.ifs = [strip2(c) for c in node.ifs]
         if len(node.ifs) > 1:                      # `if a if b` is `if a and b`
             vals = []
             for c in node.ifs:
